@@ -3,7 +3,7 @@ import re
 
 PROPS = {
     "C01": {
-        "modules": ["Ark.Props.C01a", "Ark.Props.C01b", "Ark.Props.C01d", "Ark.Props.C01e", "Ark.Props.FieldOpsGeneric"],
+        "modules": ["Ark.Props.C01a", "Ark.Props.C01b", "Ark.Props.C01c", "Ark.Props.C01d", "Ark.Props.C01e", "Ark.Props.FieldOpsGeneric"],
         "rule": "one op line per field operation on a configuration of the zoo (N=1..13 limbs, with/without spare bit, "
                 "derived and trait-default arithmetic, shipped test-curve fields); operands are raw Montgomery residues; "
                 "distinct = distinct op line; non-trivial = some operand outside {0,1}",
